@@ -233,6 +233,7 @@ def check(repo: Repo, R) -> None:
     ok = any(isinstance(n, ast.For) and ast.unparse(n.iter) == "self.tops" and bool(pat.find("self.export_module(m)", n)) for n in au.walk_no_nested(fxp.node))
     R.check(ok, rule, key_of(fxp), fxp.site, f"every top-level module is exported: {ok}", why="some tops are missing from the package")
     from . import c02, c03, c08
+    R.run(c02.checked_then_editable, repo, R, "C06.12-checked-modules-are-frozen")
     R.run(c02.dispatch_completeness, repo, shared.Retag(R, lambda r, k: "C06.10-every-connected-object-is-owned" if "check_connectable" in k else None,
                                                  "a signal that was never added to the module (or belongs to another one) passes the ownership check inside a slice, concatenation or anonymous bundle: the package names an undeclared signal"), noreturn_set(repo))
     R.run(c08.check, repo, shared.Retag(R, lambda r: "C06.9-failed-visit-never-exported" if r.startswith("C08.3") or r.startswith("C08.2") else None,
